@@ -122,5 +122,45 @@ func markerPhase(o *common.Opts, pipelines int) (done, cmds int, cmdNames map[st
 			return done, cmds, cmdNames, divs, "server exited (C04 matter): " + srv.CrashLine()
 		}
 	}
+	// slow reader: replies larger than the socket buffers are left unread for a while; afterwards the
+	// stream must still be exactly one well-formed value per command (no truncated or dropped reply)
+	if srv != nil && !srv.Exited() {
+		pause := time.Duration(o.Pick(7, 35)) * time.Second
+		c, err := respc.Dial(srv.Addr, 120*time.Second)
+		if err == nil {
+			big := bytes.Repeat([]byte("0123456789abcdef"), 1<<19) // 8 MiB
+			if v, err := c.DoB([][]byte{[]byte("SET"), []byte("slow:big"), big}); err == nil && v.Kind == '+' {
+				var buf bytes.Buffer
+				const gets = 4
+				for i := 0; i < gets; i++ {
+					buf.Write(respc.EncodeCommand(respc.Cmd("GET", "slow:big")))
+				}
+				buf.Write(respc.EncodeCommand(respc.Cmd("PING", "slow-marker")))
+				_ = c.SendRaw(buf.Bytes())
+				time.Sleep(pause)
+				bad := ""
+				for i := 0; i < gets && bad == ""; i++ {
+					v, err := c.RecvTimeout(120 * time.Second)
+					if err != nil {
+						bad = fmt.Sprintf("reply %d of %d GETs of an 8 MiB value does not decode after the reader paused %s: %v", i+1, gets, pause, err)
+					} else if v.Kind != '$' || !bytes.Equal(v.Str, big) {
+						bad = fmt.Sprintf("reply %d differs from the stored 8 MiB value (kind %c, %d bytes)", i+1, v.Kind, len(v.Str))
+					}
+				}
+				if bad == "" {
+					if m, err := c.RecvTimeout(120 * time.Second); err != nil || m.Kind != '$' || string(m.Str) != "slow-marker" {
+						bad = fmt.Sprintf("marker after the large replies missing or out of sync: %v %s", err, m.String())
+					}
+				}
+				if bad != "" {
+					divs = append(divs, seqrun.Div{Kind: "framing", Cmd: []string{"GET slow:big x4", "PING slow-marker"}, Want: "one complete bulk reply per GET, then the marker", Got: bad,
+						Detail: "TCP slow-reader scenario against the real binary", Sig: "marker|slow-reader"})
+				}
+				cmds += gets + 1
+				cmdNames["GET(8MiB,slow reader)"] += gets
+			}
+			c.Close()
+		}
+	}
 	return done, cmds, cmdNames, divs, ""
 }
